@@ -11,8 +11,9 @@ LEVEL = "fault_enumeration"
 RULE = ("valid blocks taken from Hypothesis-drawn forked chains with 0-3 spends per block (about half of them from chains "
         "whose target was driven to saturation by an easy retarget, so that the id<target test cannot mask a missing "
         "commitment); for EACH block ALL 8*len single-bit flips and ALL proper prefixes of its canonical encoding are "
-        "enumerated. Oracle per altered string: Block.deserialize raises, or add_block of the decoded block on the same "
-        "chain state with the same clock raises; an accepted one is classified 'another acceptable block' / 'same id, "
+        "enumerated (each truncation is decoded right after a decode of the complete block, as a node would see them). Oracle "
+        "per altered string: Block.deserialize raises, or add_block of the decoded block raises both on the chain state that "
+        "holds the original and on the state the original was added to, with the same clock; an accepted one is classified 'another acceptable block' / 'same id, "
         "different content'. Every altered string is non-trivial; distinct by construction = (block, bit index | cut) with "
         "blocks made unique per shard/history through their reward data.")
 ASSUMPTIONS = ["test configuration (sha256 stand-in for scrypt, checkpoints off, short retarget periods)",
@@ -24,10 +25,22 @@ def shards(tier):
     return [{"kind": "flip", "i": i} for i in range(16)]
 
 
-def tamper_block(run, blk, now, res, case_ref, budget=None):
+def offer(states, d, now):
+    """the decoded block is offered to the chain state that already holds the original AND to the state the original was
+    added to; -> True if either accepts it"""
+    for cs in states:
+        try:
+            cs.add_block(d, now)
+            return True
+        except Exception:
+            pass
+    return False
+
+
+def tamper_block(run, blk, now, res, case_ref, label=None):
     """enumerate every flip / cut of blk.raw(); returns number of altered strings tried"""
     Block = run.Block
-    cs = run.cs
+    states = [run.cs] + ([run.before[label]] if label in run.before else [])
     raw = blk.raw()
     oid = blk.id()
     n = 0
@@ -43,9 +56,7 @@ def tamper_block(run, blk, now, res, case_ref, budget=None):
         except Exception:
             res.count("flip_undecodable")
             continue
-        try:
-            cs.add_block(d, now)
-        except Exception as e:
+        if not offer(states, d, now):
             res.count("flip_rejected")
             continue
         kind = "same id, different content" if d.hash() == oid else "another acceptable block"
@@ -55,13 +66,18 @@ def tamper_block(run, blk, now, res, case_ref, budget=None):
     for cut in range(len(raw)):
         n += 1
         try:
+            if Block.deserialize(raw).hash() != oid:        # a node decodes the complete block, then a truncated copy arrives
+                raise env.HarnessError("the untouched encoding decodes to another id")
+        except env.HarnessError:
+            raise
+        except Exception as e:
+            raise env.HarnessError("the untouched encoding does not decode: %r" % e)
+        try:
             d = Block.deserialize(raw[:cut])
         except Exception:
             res.count("cut_undecodable")
             continue
-        try:
-            cs.add_block(d, now)
-        except Exception:
+        if not offer(states, d, now):
             res.count("cut_rejected")
             continue
         res.fail("tamper_accepted", "truncation-accepted", "prefix of %d/%d bytes decoded and ACCEPTED" % (cut, len(raw)),
@@ -110,7 +126,7 @@ def run(shard, tier, seed):
             res.count("blocks")
             res.count("blocks_saturated_target" if sat else "blocks_unsaturated_target")
             res.count("blocks_with_spends" if len(blk.txs) > 1 else "blocks_reward_only")
-            k = tamper_block(r, blk, blk.ts + o.get("now_off", 0), res, {"cfg": case["cfg"], "ops": case["ops"], "label": o["label"]})
+            k = tamper_block(r, blk, blk.ts + o.get("now_off", 0), res, {"cfg": case["cfg"], "ops": case["ops"], "label": o["label"]}, label=o["label"])
             res.evaluations += k
             res.disjoint += k
             if res.counters["blocks"] <= 2:
@@ -138,9 +154,11 @@ def replay(case):
     else:
         alt = raw[:case["cut"]]
     try:
+        r.Block.deserialize(raw)
         d = r.Block.deserialize(alt)
-        r.cs.add_block(d, now)
     except Exception:
+        return []
+    if not offer([r.cs] + ([r.before[case["label"]]] if case["label"] in r.before else []), d, now):
         return []
     sig = "flip-accepted:" + locate(blk, case["bit"] >> 3) if "bit" in case else "truncation-accepted"
     return [{"kind": "tamper_accepted", "sig": sig, "msg": "altered encoding accepted"}]
